@@ -1,6 +1,11 @@
 import RdVerif.Props.C01
+import RdVerif.Props.C04
 open RdVerif.C01
 #print axioms C01_exact
 #print axioms C01_closed_form
 #print axioms C01_stable
 #print axioms C01_oracle_factor
+#print axioms RdVerif.C04.exact_inverses
+#print axioms RdVerif.C04.exact_diagonalises
+#print axioms RdVerif.C04.pattern_is_ancestors
+#print axioms RdVerif.C04.float_aggregate_bound
